@@ -153,6 +153,7 @@ func c11Laws(c *fw.Ctx, label, side string, af *ast.File, df *dst.File, d2a map[
 		}
 	}
 	// parent/child commutes
+	childSets := map[dst.Node]map[dst.Node]bool{}
 	for _, a := range aseq {
 		p := aparent[a]
 		if p == nil {
@@ -165,13 +166,17 @@ func c11Laws(c *fw.Ctx, label, side string, af *ast.File, df *dst.File, d2a map[
 		if dc == dp {
 			continue
 		}
-		found := false
-		for _, ch := range refl.DstChildren(dp) {
-			if ch.Node == dc {
-				found = true
-				break
+		// (the children of a parent are collected once: lists with tens of thousands of elements
+		// would otherwise cost a quadratic number of comparisons)
+		cs, ok := childSets[dp]
+		if !ok {
+			cs = map[dst.Node]bool{}
+			for _, ch := range refl.DstChildren(dp) {
+				cs[ch.Node] = true
 			}
+			childSets[dp] = cs
 		}
+		found := cs[dc]
 		if !found {
 			// FuncDecl: ast has Type as a child whose children are the field lists; dst has the same shape
 			viol("edge-not-preserved", "edge-not-preserved:"+refl.TypeName(p)+">"+refl.TypeName(a), fmt.Sprintf("ast edge %s -> %s has no dst counterpart edge", refl.TypeName(p), refl.TypeName(a)))
